@@ -537,3 +537,17 @@ PROPERTIES['C10']['obligations'] += [
     for n in (4, 5)]
 PROPERTIES['C10']['level_text'] = 'Bounded model checking of the predicates the triangulator and its convex fast path are built on: CCW with zero tolerance equals the sign of the exact integer determinant on a lattice and is antisymmetric for every tolerance; IsConvex, the gate of the zig-zag fast path, only accepts lattice polygons without a reflex vertex and without zero-length edges.'
 PROPERTIES['C10']['level_note'] = 'Predicates only (CCW, IsConvex). Ear clipping, keyholing, HalfedgeTriangulation pairing, TriangulateConvex itself, termination and independence from triangulator reuse are NOT covered (std::multiset/linked-list state of the ear clipper is outside what the encoder reaches at a useful size).'
+
+# ---- level texts: additions of round 2 (kept at the end so that the tables above stay readable)
+PROPERTIES['C01']['level_text'] += ' Impl::IsManifold(), the gate of the import constructor, accepts exactly the halfedge arrays an independently written specification accepts.'
+PROPERTIES['C02']['level_text'] += ' Kernel11 is invariant under doubling every vertex and face normal of both operands (the perturbation is a direction), decided on concrete exact-tie configurations with all normals symbolic.'
+PROPERTIES['C02']['level_note'] = PROPERTIES['C02']['level_note'].replace('Kernel level only:', 'Kernel level only (Kernel12 and the RayCast/PointWinding queries built on it do not decide, see C18):')
+PROPERTIES['C06']['level_text'] += ' The progress counters: the real ExecutionContext::Progress() polled while another thread resets the context for reuse stays in [0,1], and ResetForStaticFactory only passes through the counter states that argument relies on.'
+PROPERTIES['C09']['level_text'] += ' On the success path the state handed to CreateHalfedges satisfies the contract the rest of the library relies on without re-validating (TriRef / meshID / index / property-row consistency, tangents aligned with the kept triangles, hasNormals only with >= 3 property channels); three defects were found and repaired through these obligations.'
+PROPERTIES['C09']['level_note'] = PROPERTIES['C09']['level_note'].replace('Everything from CreateHalfedges on is cut (the success path ends there);', 'Everything from CreateHalfedges on is cut or, in the handoff obligations, replaced by a stub asserting the handoff contract;')
+PROPERTIES['C13']['level_text'] += ' unique() is additionally decided with its internal chunk size lowered to 2 through a second hook, so that runs of equal values straddle chunk boundaries (n <= 5).'
+PROPERTIES['C14']['level_text'] += ' The polygon k-d tree: QueryTwoDTree on ANY array satisfying the tree invariant and ANY rectangle visits exactly the points of the closed rectangle, once each (9 points quick, 19 thorough).'
+PROPERTIES['C14']['level_note'] += ' The k-d tree invariant itself (what BuildTwoDTree leaves) is assumed, its obligation does not decide. The 2D edge-pair BVH of boolean2.cpp is outside.'
+PROPERTIES['C15']['level_text'] += ' The real Progress() is also decided with a concurrent resetting writer interleaved between its atomic loads.'
+PROPERTIES['C19']['level_text'] += ' CsgLeafNode::Compose (disjoint union of children with pending transforms) hands on tolerance >= epsilon; a defect there was found and repaired through this obligation.'
+PROPERTIES['C19']['level_note'] += ' Propagation through Boolean3::Result is written as an obligation but does not decide (memory).'
